@@ -173,7 +173,10 @@ def worker(args):
                     rec['verdict'] = 'no-compile'
                     continue
                 open(fp, 'wb').write(mut)
-                missing = baseline(wt)
+                try:
+                    missing = baseline(wt)
+                except Exception as e:  # noqa - pytest died or hung (no junit file): the mutant does not pass the pinned tests
+                    missing = ['<%s>' % type(e).__name__]
                 if missing:
                     rec['verdict'] = 'killed-by-tests'
                     rec['tests'] = len(missing)
